@@ -461,6 +461,7 @@ func checkProperty(p *Prog, loadErr error, pd *PropDef, tier string, start time.
 		if p != nil {
 			cov["files_loaded"] = p.NFiles
 			cov["ssa_functions"] = len(p.Funcs)
+			cov["local_closures_inlined_before_analysis"] = p.Inlined
 		}
 		if len(planned) > 0 {
 			cov["rules_designed_but_not_yet_built"] = planned
